@@ -110,16 +110,23 @@ impl Filter for BasicFilter {
 
             // get relative frequency difference
             let mut freq_diff = interval_local / interval_master;
-            if (freq_diff - 1.0).abs() > self.freq_confidence {
-                freq_diff = freq_diff.clamp(1.0 - self.freq_confidence, 1.0 + self.freq_confidence);
-                self.freq_confidence *= 2.0;
+            if !freq_diff.is_finite() {
+                // no time passed on the master between the two measurements (e.g. a
+                // duplicated packet), so there is no frequency information in them
+                0.0
             } else {
-                self.freq_confidence -=
-                    (self.freq_confidence - (freq_diff - 1.0).abs()) * self.gain;
-            }
+                if (freq_diff - 1.0).abs() > self.freq_confidence {
+                    freq_diff =
+                        freq_diff.clamp(1.0 - self.freq_confidence, 1.0 + self.freq_confidence);
+                    self.freq_confidence *= 2.0;
+                } else {
+                    self.freq_confidence -=
+                        (self.freq_confidence - (freq_diff - 1.0).abs()) * self.gain;
+                }
 
-            // and decide the correction (and convert to ppm)
-            -(freq_diff - 1.0) * self.gain * 0.1 * 1e6
+                // and decide the correction (and convert to ppm)
+                -(freq_diff - 1.0) * self.gain * 0.1 * 1e6
+            }
         } else {
             // No data, so first run, so initialize
             if let Err(error) = clock.set_frequency(0.0) {
